@@ -16,6 +16,7 @@
 -/
 import Saltpack.Proofs.ArmorWriterFaults
 import Saltpack.Proofs.ArmoredSenderWritten
+import Saltpack.Proofs.SenderStreamWhole
 
 namespace Saltpack.Props.C14
 open Saltpack Saltpack.Sender Saltpack.Proofs Saltpack.Proofs.SenderP
@@ -25,7 +26,11 @@ open Saltpack Saltpack.Sender Saltpack.Proofs Saltpack.Proofs.SenderP
 /-- **sticky**: a call during which an underlying write failed leaves the stream
     failed (`s.err` set); a failed stream refuses every later call — any sequence
     of `Write`s and `Close`s returns `(0, error)` each — and nothing changes any
-    more: not the writer, not the buffer, not the encoder -/
+    more: not the writer, not the buffer, not the encoder.  (For a SINGLE call
+    the third conjunct is the first line of `Write`/`Close` unfolded — `if s.err
+    != nil { return 0, s.err }`; its content is the induction over arbitrary call
+    sequences, and `C14_armor_stream_sticky_run` ties `failed` to "an underlying
+    write has failed" along runs from the constructor.) -/
 theorem C14_armor_stream_sticky (a : FArm) (b : Bytes) :
     ((a.write b).2.w.faults ≠ a.w.faults → (a.write b).2.failed = true) ∧
     (a.close.2.w.faults ≠ a.w.faults → a.close.2.failed = true) ∧
@@ -60,7 +65,8 @@ theorem C14_armor_stream_error_iff_fault (a : FArm) (b : Bytes) (he : a.EncOk) (
   rw [(farm_encOk_close a he).1, hf] at h2
   exact ⟨farm_write_flag a b hf, farm_close_flag a hf, by simpa using h1, by simpa using h2⟩
 
-/-- the byte count: a refused `Write` returns 0; any other returns `len(b)` —
+/-- the byte count: a refused `Write` returns 0 (first conjunct: the first line
+    of `Write` unfolded, stated for completeness); any other returns `len(b)` —
     also the one in which `spaceAndOutputBuffer` fails (`return n, err`) -/
 theorem C14_armor_write_count (a : FArm) (b : Bytes) (he : a.EncOk) :
     (a.failed = true → a.writeN b = (0, false, a)) ∧ (a.failed = false → (a.writeN b).1 = b.length) :=
@@ -138,6 +144,27 @@ theorem C14_armored_success_means_written (cfg : Cfg) (hp : ∀ b, (cfg.pieces b
   exact armored_success cfg hp hb hif v hv Armor.params62 (Basex.Enc.wf_of_check _ (by decide)) (by decide)
     (Armor.header typ brand) (Armor.footer typ brand) sink headerBytes ws ha hi hws hc
 
+/-- **`closeForwarder.Close` returned nil ⇒ completely written, armored** — the
+    property's second clause with NO hypothesis on what the packet stream's
+    constructor and the `Write`s returned (only that the armor constructor
+    returned a stream at all): the packet stream's constructor succeeded, every
+    `Write` returned `(len p, nil)`, no underlying write failed and the writer
+    holds exactly the Armor62 text of the all-at-once binary message -/
+theorem C14_armored_close_ok_means_written (cfg : Cfg) (hp : ∀ b, (cfg.pieces b).flatten = b) (hb : 0 < cfg.bs)
+    (hif : IndexFail cfg.pkt) (v : Version) (hv : cfg.v1shape = (v == v1)) (typ : Int) (brand : Bytes)
+    (sink : Stream.Sink) (headerBytes : Bytes) (ws : List Bytes) :
+    let a := FArm.init62 typ brand ({ sink := sink } : Wr)
+    let i := PSt.init FArm.write cfg.pieces a.2 headerBytes
+    let r := PSt.writes FArm.write cfg i.2 ws
+    let c := armoredClose cfg r.2
+    a.1 = true → c.1 = none →
+      i.1 = true ∧ (∀ x ∈ r.1, x.2 = none) ∧
+      ∃ M, oneShot cfg v headerBytes ws.flatten = .ok M ∧
+        c.2.codec.w.w.bytes = Armor.seal62 typ brand M ∧ c.2.codec.w.w.faults = 0 := by
+  intro a i r c ha hc
+  obtain ⟨hi, hws⟩ := armored_close_ok_all_ok cfg hp hb hif a.2 headerBytes ws hc
+  exact ⟨hi, hws, C14_armored_success_means_written cfg hp hb hif v hv typ brand sink headerBytes ws ha hi hws hc⟩
+
 /-- `NewEncryptArmor62Stream` + `Write`* + `Close`: every call reported success ⇒
     the writer holds `Armor.seal62 typ brand` of `Encrypt.sealWith` of the
     concatenated plaintext -/
@@ -193,6 +220,42 @@ theorem C14_signcrypt_armored_success_means_written (P : Prims) (bs : Nat) (hb :
   obtain ⟨M, hM, ho, _⟩ := C14_armored_success_means_written cfg (by rw [hcfg.2.1]; exact hp) (by rw [hcfg.1]; exact hb)
     hcfg.2.2.2 v2 hcfg.2.2.1 typ brand sink hbytes ws ha hi hws hc
   exact ⟨M, (scSealWith_iff_oneShot P bs pieces sender rs eph pk ws.flatten M).2 ⟨hbytes, cfg, hs, hM⟩, ho⟩
+
+/-- the three armored packet senders, `Close` alone: `NewEncryptArmor62Stream` /
+    `NewSignArmor62Stream` / `NewSigncryptArmor62SealStream` + `Write`* + `Close`
+    = nil ⇒ the writer holds `Armor.seal62 typ brand` of `Encrypt.sealWith` /
+    `Sign.attachedWith` / `Signcrypt.sealWith` of the concatenated plaintext -/
+theorem C14_armored_senders_close_ok_means_written (P : Prims) (bs : Nat) (hb : 0 < bs) (pieces : Bytes → List Bytes)
+    (hp : ∀ b, (pieces b).flatten = b) (typ : Int) (brand : Bytes) (sink : Stream.Sink) (ws : List Bytes)
+    (hbytes : Bytes) (cfg : Cfg)
+    (ha : (FArm.init62 typ brand ({ sink := sink } : Wr)).1 = true)
+    (hc : (armoredClose cfg (PSt.writes FArm.write cfg
+      (PSt.init FArm.write cfg.pieces (FArm.init62 typ brand ({ sink := sink } : Wr)).2 hbytes).2 ws).2).1 = none) :
+    let out := (armoredClose cfg (PSt.writes FArm.write cfg
+      (PSt.init FArm.write cfg.pieces (FArm.init62 typ brand ({ sink := sink } : Wr)).2 hbytes).2 ws).2).2.codec.w.w.bytes
+    (∀ v sender rs eph pk, encryptSetup P bs pieces v sender rs eph pk = .ok (hbytes, cfg) →
+      ∃ M, Encrypt.sealWith P bs v sender rs eph pk ws.flatten = .ok M ∧ out = Armor.seal62 typ brand M) ∧
+    (∀ v signer nonce, signSetup P bs pieces v signer nonce = .ok (hbytes, cfg) →
+      ∃ M, Sign.attachedWith P bs v signer nonce ws.flatten = .ok M ∧ out = Armor.seal62 typ brand M) ∧
+    (∀ sender rs eph pk, signcryptSetup P bs pieces sender rs eph pk = .ok (hbytes, cfg) →
+      ∃ M, Signcrypt.sealWith P bs sender rs eph pk ws.flatten = .ok M ∧ out = Armor.seal62 typ brand M) := by
+  intro out
+  refine ⟨fun v sender rs eph pk hs => ?_, fun v signer nonce hs => ?_, fun sender rs eph pk hs => ?_⟩
+  · have hcfg := encryptSetup_cfg P bs pieces v sender rs eph pk hbytes cfg hs
+    obtain ⟨hi, hws, _⟩ := C14_armored_close_ok_means_written cfg (by rw [hcfg.2.1]; exact hp) (by rw [hcfg.1]; exact hb)
+      hcfg.2.2.2 v hcfg.2.2.1 typ brand sink hbytes ws ha hc
+    exact C14_encrypt_armored_success_means_written P bs hb pieces hp v sender rs eph pk hbytes cfg hs typ brand sink ws
+      ha hi hws hc
+  · have hcfg := signSetup_cfg P bs pieces v signer nonce hbytes cfg hs
+    obtain ⟨hi, hws, _⟩ := C14_armored_close_ok_means_written cfg (by rw [hcfg.2.1]; exact hp) (by rw [hcfg.1]; exact hb)
+      hcfg.2.2.2 v hcfg.2.2.1 typ brand sink hbytes ws ha hc
+    exact C14_sign_armored_success_means_written P bs hb pieces hp v signer nonce hbytes cfg hs typ brand sink ws
+      ha hi hws hc
+  · have hcfg := signcryptSetup_cfg P bs pieces sender rs eph pk hbytes cfg hs
+    obtain ⟨hi, hws, _⟩ := C14_armored_close_ok_means_written cfg (by rw [hcfg.2.1]; exact hp) (by rw [hcfg.1]; exact hb)
+      hcfg.2.2.2 v2 hcfg.2.2.1 typ brand sink hbytes ws ha hc
+    exact C14_signcrypt_armored_success_means_written P bs hb pieces hp sender rs eph pk hbytes cfg hs typ brand sink ws
+      ha hi hws hc
 
 /-! ## non-vacuity (toy parameters `toyArm`: words of 2 characters, lines of 2 words, base62;
      header "H", footer "F"; kernel-evaluated) -/
